@@ -1,4 +1,373 @@
+//! fv-iocx: drivers that run the real fibre_ioc code and record histories for
+//! TLC (specs/ioc/IocTrace.tla).
+//!
+//!   fv-iocx ioc-seq    --container inst|local|global --out F [--programs-file P | --random N --ops M]
+//!                      [--seed S] [--permute 1] [--stride K] [--limit L] [--chunk C]
+//!   fv-iocx ioc-stress --container inst|global --out F --rounds R --threads 2,4,8
+//!                      --scenarios first,rereg,transient,cycle [--seed S]
+//!
+//! The histories are produced by child processes of this binary (`--child 1`):
+//! a stack overflow or abort inside the library kills only the child and is
+//! recorded as a `crash` record, a hang is cut by a watchdog and recorded as
+//! a `hung` record, a panic is caught and recorded as a `ret` with res = panic.
+//! The global container is process-global, so in `--container global` every
+//! sequential program gets its own process.
+
+mod ctr;
+mod model;
+mod seq;
+mod stress;
+
+use serde_json::json;
+use std::collections::HashMap;
+use std::io::Write;
+use std::process::Command;
+use std::sync::mpsc;
+use std::sync::Arc;
+use std::time::Duration;
+
+pub struct Args(HashMap<String, String>);
+impl Args {
+  fn parse(it: impl Iterator<Item = String>) -> Args {
+    let mut m = HashMap::new();
+    let v: Vec<String> = it.collect();
+    let mut i = 0;
+    while i < v.len() {
+      if let Some(k) = v[i].strip_prefix("--") {
+        let val = if i + 1 < v.len() && !v[i + 1].starts_with("--") {
+          i += 1;
+          v[i].clone()
+        } else {
+          "1".into()
+        };
+        m.insert(k.to_string(), val);
+      }
+      i += 1;
+    }
+    Args(m)
+  }
+  pub fn get(&self, k: &str, d: &str) -> String {
+    self.0.get(k).cloned().unwrap_or_else(|| d.to_string())
+  }
+  pub fn num(&self, k: &str, d: u64) -> u64 {
+    self.0.get(k).map(|s| s.parse().expect("number")).unwrap_or(d)
+  }
+  pub fn list(&self, k: &str, d: &str) -> Vec<String> {
+    self.get(k, d).split(',').filter(|s| !s.is_empty()).map(|s| s.to_string()).collect()
+  }
+  pub fn has(&self, k: &str) -> bool {
+    self.0.contains_key(k)
+  }
+}
+
 fn main() {
-  eprintln!("fv-iocx: not built yet");
-  std::process::exit(2);
+  let mut it = std::env::args().skip(1);
+  let cmd = it.next().unwrap_or_default();
+  let args = Args::parse(it);
+  // a panic inside library code is data: keep the default hook quiet
+  std::panic::set_hook(Box::new(|_| {}));
+  let child = args.has("child");
+  match (cmd.as_str(), child) {
+    ("ioc-seq", false) => parent_seq(&args),
+    ("ioc-seq", true) => child_seq(&args),
+    ("ioc-stress", false) => parent_stress(&args),
+    ("ioc-stress", true) => child_stress(&args),
+    _ => {
+      eprintln!("usage: fv-iocx <ioc-seq|ioc-stress> [--key value]...");
+      std::process::exit(2);
+    }
+  }
+}
+
+fn mix(seed: u64, x: u64) -> u64 {
+  let mut r = seq::Rng(seed ^ x.wrapping_mul(0x9E37_79B9_7F4A_7C15));
+  r.next()
+}
+
+// ------------------------------------------------------------------ children
+const EXIT_HUNG: i32 = 3;
+
+fn write_history(w: &mut impl Write, recs: &[String]) {
+  for r in recs {
+    writeln!(w, "{r}").unwrap();
+  }
+  w.flush().unwrap();
+}
+
+fn child_seq(a: &Args) {
+  let flavour = a.get("container", "inst");
+  let from = a.num("from", 0) as usize;
+  let to = a.num("to", 0) as usize;
+  let progs: Vec<String> = std::fs::read_to_string(a.get("progs", "")).expect("read progs").lines().map(|s| s.to_string()).collect();
+  let progs = Arc::new(progs);
+  let mut w = std::io::BufWriter::new(std::fs::File::create(a.get("out", "/dev/stdout")).expect("create out"));
+  let (txj, rxj) = mpsc::channel::<usize>();
+  let (txd, rxd) = mpsc::channel::<()>();
+  {
+    let progs = progs.clone();
+    let flavour = flavour.clone();
+    std::thread::Builder::new()
+      .name("ioc-seq".into())
+      .spawn(move || {
+        for idx in rxj {
+          let prog = model::parse_program(&progs[idx]);
+          seq::run_program(&prog, &flavour, idx as u64);
+          if txd.send(()).is_err() {
+            break;
+          }
+        }
+      })
+      .expect("spawn");
+  }
+  for idx in from..to.min(progs.len()) {
+    txj.send(idx).expect("worker alive");
+    match rxd.recv_timeout(Duration::from_secs(5)) {
+      Ok(()) => write_history(&mut w, &model::take()),
+      Err(mpsc::RecvTimeoutError::Timeout) => {
+        let mut recs = model::take();
+        recs.push(json!({"k":"hung","ts":[1]}).to_string());
+        recs.push(json!({"k":"end"}).to_string());
+        write_history(&mut w, &recs);
+        std::process::exit(EXIT_HUNG);
+      }
+      Err(mpsc::RecvTimeoutError::Disconnected) => {
+        eprintln!("fv-iocx: the driver's worker thread died on program {idx}");
+        std::process::exit(4);
+      }
+    }
+  }
+}
+
+fn child_stress(a: &Args) {
+  let global = a.get("container", "inst") == "global";
+  let from = a.num("from", 0);
+  let to = a.num("to", 0);
+  let seed = a.num("seed", 1);
+  let threads: Vec<usize> = a.list("threads", "2,4,8").iter().map(|s| s.parse().expect("threads")).collect();
+  let scenarios: Vec<String> = a.list("scenarios", "first,rereg,transient").into_iter().filter(|s| !(global && s == "cycle")).collect();
+  let mut w = std::io::BufWriter::new(std::fs::File::create(a.get("out", "/dev/stdout")).expect("create out"));
+  for round in from..to {
+    let r = stress::Round {
+      scenario: scenarios[(round as usize) % scenarios.len()].clone(),
+      threads: threads[(round as usize / scenarios.len()) % threads.len()],
+      seed: mix(seed, round),
+      global,
+      round,
+    };
+    stress::run_round(&r);
+    write_history(&mut w, &model::take());
+  }
+}
+
+// ------------------------------------------------------------------- parents
+#[derive(Default)]
+struct Stats {
+  programs: u64,
+  histories: u64,
+  records: u64,
+  panics: u64,
+  hung: u64,
+  crashed: u64,
+  skipped: u64,
+  children: u64,
+}
+
+/// Runs one child over [from, to); appends its histories to `w`; returns the
+/// index to continue from.
+fn run_child(cmd: &str, a: &Args, extra: &[(&str, String)], from: u64, to: u64, child_out: &str, w: &mut impl Write, st: &mut Stats, flavour: &str, mode: &str) -> u64 {
+  let exe = std::env::current_exe().expect("current exe");
+  let mut c = Command::new(exe);
+  c.arg(cmd).arg("--child").arg("1").arg("--from").arg(from.to_string()).arg("--to").arg(to.to_string()).arg("--out").arg(child_out);
+  c.arg("--container").arg(flavour).arg("--seed").arg(a.get("seed", "1"));
+  for (k, v) in extra {
+    c.arg(format!("--{k}")).arg(v);
+  }
+  let status = c.status().expect("spawn child");
+  st.children += 1;
+  let text = std::fs::read_to_string(child_out).unwrap_or_default();
+  let mut news = 0u64;
+  for line in text.lines() {
+    if line.contains("\"k\":\"new\"") {
+      news += 1;
+      st.histories += 1;
+    }
+    if line.contains("\"res\":\"panic\"") {
+      st.panics += 1;
+    }
+    st.records += 1;
+    writeln!(w, "{line}").unwrap();
+  }
+  let _ = std::fs::remove_file(child_out);
+  match status.code() {
+    Some(0) => to,
+    Some(EXIT_HUNG) => {
+      st.hung += 1;
+      from + news
+    }
+    Some(4) | Some(2) => {
+      eprintln!("fv-iocx: child failed (driver error)");
+      std::process::exit(2);
+    }
+    other => {
+      // killed by a signal (stack overflow -> SIGSEGV / SIGABRT) or an abort inside the library
+      let idx = from + news;
+      let what = match other {
+        Some(c) => format!("exit code {c}"),
+        None => format!("{status}"),
+      };
+      writeln!(w, "{}", json!({"k":"new","c":flavour,"mode":mode,"kf":[],"p":idx})).unwrap();
+      writeln!(w, "{}", json!({"k":"crash","status":what})).unwrap();
+      st.histories += 1;
+      st.records += 2;
+      st.crashed += 1;
+      idx + 1
+    }
+  }
+}
+
+fn parent_seq(a: &Args) {
+  let flavour = a.get("container", "inst");
+  let local = flavour == "local";
+  let global = flavour == "global";
+  let seed = a.num("seed", 1);
+  let out = a.get("out", "/dev/stdout");
+  let permute = a.num("permute", 1) == 1;
+  let mut st = Stats::default();
+  // 1. the abstract programs
+  let mut progs: Vec<Vec<model::OpD>> = Vec::new();
+  if a.has("programs-file") {
+    for path in a.list("programs-file", "") {
+      for line in std::fs::read_to_string(&path).expect("read programs file").lines() {
+        if !line.trim().is_empty() {
+          progs.push(model::parse_program(line));
+        }
+      }
+    }
+  }
+  let nrandom = a.num("random", 0);
+  let ops = a.num("ops", 30) as usize;
+  for p in 0..nrandom {
+    let mut rng = seq::Rng(mix(seed, p));
+    progs.push(seq::random_program(&mut rng, ops, local));
+  }
+  // 2. sampling, symmetry, API forms, what the flavour cannot express
+  let stride = a.num("stride", 1).max(1);
+  let offset = a.num("offset", 0);
+  let limit = a.num("limit", u64::MAX);
+  let mut lines: Vec<String> = Vec::new();
+  for (i, p) in progs.iter().enumerate() {
+    if (i as u64 + offset) % stride != 0 || lines.len() as u64 >= limit {
+      continue;
+    }
+    if local && seq::uses_instance(p) {
+      st.skipped += 1;
+      continue;
+    }
+    let h = mix(seed, i as u64);
+    let c = seq::concretise(p, if permute { h & 3 } else { 0 }, h >> 8, global, local);
+    lines.push(serde_json::Value::Array(c.iter().map(|o| o.json()).collect()).to_string());
+  }
+  st.programs = lines.len() as u64;
+  let progs_path = format!("{out}.progs");
+  std::fs::write(&progs_path, lines.join("\n") + "\n").expect("write progs");
+  // 3. children
+  let mut w = std::io::BufWriter::new(std::fs::File::create(&out).expect("create out"));
+  let n = lines.len() as u64;
+  let chunk = if global { 1 } else { a.num("chunk", 5000) };
+  let child_out = format!("{out}.child");
+  let mut from = 0u64;
+  let extra = [("progs", progs_path.clone())];
+  if global {
+    // one process per program; a few at a time
+    let par = a.num("jobs", 6).max(1);
+    while from < n {
+      let hi = (from + par).min(n);
+      let handles: Vec<_> = (from..hi)
+        .map(|i| {
+          let exe = std::env::current_exe().expect("current exe");
+          let co = format!("{child_out}.{i}");
+          let mut c = Command::new(exe);
+          c.arg("ioc-seq").arg("--child").arg("1").arg("--from").arg(i.to_string()).arg("--to").arg((i + 1).to_string());
+          c.arg("--out").arg(&co).arg("--container").arg("global").arg("--progs").arg(&progs_path);
+          (i, co, c.spawn().expect("spawn child"))
+        })
+        .collect();
+      for (i, co, mut h) in handles {
+        let status = h.wait().expect("wait child");
+        st.children += 1;
+        let text = std::fs::read_to_string(&co).unwrap_or_default();
+        let _ = std::fs::remove_file(&co);
+        let mut news = 0;
+        for line in text.lines() {
+          if line.contains("\"k\":\"new\"") {
+            news += 1;
+          }
+          if line.contains("\"res\":\"panic\"") {
+            st.panics += 1;
+          }
+          st.records += 1;
+          writeln!(w, "{line}").unwrap();
+        }
+        st.histories += 1;
+        match status.code() {
+          Some(0) => {}
+          Some(EXIT_HUNG) => st.hung += 1,
+          Some(4) | Some(2) => {
+            eprintln!("fv-iocx: child failed (driver error)");
+            std::process::exit(2);
+          }
+          other => {
+            let what = match other {
+              Some(c) => format!("exit code {c}"),
+              None => format!("{status}"),
+            };
+            if news == 0 {
+              writeln!(w, "{}", json!({"k":"new","c":"global","mode":"seq","kf":[],"p":i})).unwrap();
+              st.records += 1;
+            }
+            writeln!(w, "{}", json!({"k":"crash","status":what})).unwrap();
+            st.records += 1;
+            st.crashed += 1;
+          }
+        }
+      }
+      from = hi;
+    }
+  } else {
+    while from < n {
+      let to = (from + chunk).min(n);
+      from = run_child("ioc-seq", a, &extra, from, to, &child_out, &mut w, &mut st, &flavour, "seq");
+    }
+  }
+  w.flush().unwrap();
+  if !a.has("keep-progs") {
+    let _ = std::fs::remove_file(&progs_path);
+  }
+  print_stats(&st);
+}
+
+fn parent_stress(a: &Args) {
+  let flavour = a.get("container", "inst");
+  let out = a.get("out", "/dev/stdout");
+  let rounds = a.num("rounds", 30);
+  let mut st = Stats::default();
+  st.programs = rounds;
+  let mut w = std::io::BufWriter::new(std::fs::File::create(&out).expect("create out"));
+  let child_out = format!("{out}.child");
+  let extra = [("threads", a.get("threads", "2,4,8")), ("scenarios", a.get("scenarios", "first,rereg,transient"))];
+  let mut from = 0u64;
+  while from < rounds {
+    from = run_child("ioc-stress", a, &extra, from, rounds, &child_out, &mut w, &mut st, &flavour, "stress");
+  }
+  w.flush().unwrap();
+  // hung rounds are recorded inside the histories
+  print_stats(&st);
+}
+
+fn print_stats(st: &Stats) {
+  println!(
+    "{}",
+    json!({"programs": st.programs, "histories": st.histories, "records": st.records, "panics": st.panics,
+           "hung": st.hung, "crashed": st.crashed, "skipped": st.skipped, "children": st.children})
+  );
 }
